@@ -125,6 +125,8 @@ TPub ==
        ELSE IF pend[u].op = "range" THEN [pend[u] EXCEPT !.seenAll[k] = @ \cup {new}]
        ELSE IF pend[u].op \in KeyedOps /\ pend[u].a.k = k
             THEN [pend[u] EXCEPT !.seen = @ \cup {new}, !.npub = @ + 1, !.reaped = FALSE]
+       \* a flush in flight: publications on ANY key since it was invoked (it need not cover them)
+       ELSE IF pend[u].op = "flush" THEN [pend[u] EXCEPT !.npub = @ + 1]
        ELSE pend[u]]
   /\ flags' = (IF bad THEN (IF Ev.kind = 4 THEN {"expire"} ELSE {"lww"}) ELSE {})
   /\ UNCHANGED <<now, cfg, klen>>
@@ -246,13 +248,23 @@ TStall == Ev.e = "stall" /\ flags' = {} /\ UNCHANGED <<kv, now, cfg, klen, pend>
 \* persistent stores, after every thread returned and one more flush() returned: every block of
 \* the data area is either offered by the free-space manager or occupied by a live generation
 \* (every superseded, deleted or expired generation has been retired and released: C19)
+\* the same accounting at the moment a flush() call returns Ok while no mutating call is in flight:
+\* an acknowledged flush leaves no retirement behind (C02: an acknowledged delete never comes back)
+TFState ==
+  /\ Ev.e = "fstate"
+  /\ flags' = IF /\ Ev.unwritten = 0 /\ Ev.free + Ev.live # Ev.data
+                 /\ Ev.t \in DOMAIN pend /\ pend[Ev.t].on /\ pend[Ev.t].npub = 0     \* nothing was published after this flush began
+                 /\ \A u \in DOMAIN pend : (pend[u].on /\ u # Ev.t) => pend[u].op \in {"get", "get_size", "contains", "flush", "range", "get_ttl"}
+              THEN {"ackretire"} ELSE {}
+  /\ UNCHANGED <<kv, now, cfg, klen, pend>>
+
 TSettled ==
   /\ Ev.e = "settled"
   /\ flags' = IF Ev.unwritten = 0 /\ Ev.free + Ev.live # Ev.data THEN {"retire"} ELSE {}
   /\ UNCHANGED <<kv, now, cfg, klen, pend>>
 
 TNext == /\ l <= Len(Rec) /\ l' = l + 1
-         /\ (TReset \/ TInv \/ TPub \/ TRes \/ TMem \/ TFinal \/ TStall \/ TSettled)
+         /\ (TReset \/ TInv \/ TPub \/ TRes \/ TMem \/ TFinal \/ TStall \/ TSettled \/ TFState)
 TSpec == TInit /\ [][TNext]_tvars
 
 (* ------------------------------ verdicts ------------------------------ *)
@@ -266,6 +278,8 @@ NotHidden == "index" \notin flags
 MemBound == flags \cap {"limit", "mem", "len"} = {}
 \* C08: the extent a not yet durable TTL-only generation reads its bytes from is never retired
 SourceKept == "source" \notin flags
+\* C02: a flush() that returns Ok leaves no pending retirement behind
+FlushAckComplete == "ackretire" \notin flags
 \* C19: retirement completes once no reader holds the generation
 RetireSettled == "retire" \notin flags
 \* C14: scans
